@@ -24,8 +24,6 @@ structure SCtx where
   unk : Bool := false
   /-- inside a function body, in the shell process that called it (`return` works) -/
   fn : Bool := false
-  /-- inside a `for` body of the current function / shell process -/
-  inFor : Bool := false
   /-- in the top-level shell process and not in a function body (`trap … EXIT` allowed) -/
   top : Bool := true
   /-- one entry per enclosing loop, innermost first: is this position such that nothing else
@@ -48,13 +46,9 @@ def zeroCmd : Cmd → Bool
   | .tru | .echo _ | .assign _ _ | .setE _ | .setPF _ | .trapExit _ | .fn _ _ | .brk _ | .cont _ => true
   | _ => false
 
-def partClosed : Part → Bool
-  | .var _ => false
-  | _ => true
-
-/-- Trap actions of the supported fragment: `echo` of literals and `$?`, `true`. -/
+/-- Trap actions of the supported fragment: `echo`, `true`. -/
 def simpleTrapStmt : Stmt → Bool
-  | .mk false (.echo w) => w.all partClosed
+  | .mk false (.echo _) => true
   | .mk false .tru => true
   | _ => false
 
@@ -116,12 +110,12 @@ mutual
   def supCmd (k : SCtx) : Cmd → Bool
     | .tru | .fls | .echo _ | .test _ _ _ | .assign _ _ | .setPF _ | .exit _ | .call _ => true
     | .setE on => !on || k.e
-    -- [findings C26-return-status, C26-return-outside, C26-for-after-return]
-    | .ret n => n.isSome && k.fn && !k.inFor
+    -- [finding C26-return-status; `return` outside a function: the repository's `#JUSTERR` case]
+    | .ret n => n.isSome && k.fn
     -- [findings C26-break-nested, C26-break-count, C26-break-function]
     | .brk n => levelsOk k.tl n
     | .cont n => levelsOk k.tl n
-    -- [findings C26-exit-trap-subshell, C26-trap-exit-status, C26-for-after-return]
+    -- [findings C26-exit-trap-subshell, C26-trap-exit-status]
     | .trapExit b => k.top && simpleTrap b
     -- [finding C26-err-trap] ERR traps are outside the proved fragment
     | .trapErr b => b.isNil
@@ -141,7 +135,7 @@ mutual
       !c.isNil && supProg { k with ign := true, tl := headFalse k.tl } false c
         && !b.isNil && supBody { k with tl := true :: k.tl } b && lastZero b
     | .forc _ _ b =>
-      !b.isNil && supBody { k with tl := true :: k.tl, inFor := true } b && (!k.e || k.ign || tailOk b)
+      !b.isNil && supBody { k with tl := true :: k.tl } b && (!k.e || k.ign || tailOk b)
     | .case _ is => supItems k false is
     | .fn _ (.mk false (.block p)) => !p.isNil && supProg (fnCtx k) true p
     | .fn _ _ => false
